@@ -73,7 +73,7 @@ ENGINES.append({"name": "E2 explicit-state search over genomes (GenomeSpace)", "
   "serves_properties": ["C01", "C05", "C06"],
   "kind_free_text": "breadth-first closure of start genomes under all genetic operators of the real code x all their choice sequences within a deviation bound, one shared innovation record per search, states deduplicated by a canonical structural key with a stated correctness argument, per-transition oracles"})
 
-_E2NOTE = ("Bounds: 7 families of start genomes, breadth-first depth 3 (quick; 2 for the two largest) / up to 5 under a time cap reported in the evidence (thorough); operator choice sequences within 2-3 deviations of Z/M/A (1-2 for the many-draw weight/trait mutators and for crossovers); genomes reached have <= ~10 nodes / ~15 genes. "
+_E2NOTE = ("Bounds: 9 families of start genomes, breadth-first depth 3 (quick; 2 for the largest families, 1 for the 16-gene genome) / depth 4 under a per-family time cap reported in the evidence (thorough); operator choice sequences within 2 deviations of Z/M/A (1 for the many-draw weight/trait mutators and for crossovers); genomes reached have <= ~10 nodes / ~15 genes. "
            "No model: every transition is a call of the real operator through the accessor overlay.")
 
 chk("C01", "model_checking", "E2+E1",
@@ -99,7 +99,7 @@ chk("C06", "model_checking", "E2+E1",
 
 chk("C08", "model_checking", "E4+E1",
     "bounded-exhaustive enumeration of existing populations x ordered batches with a lock-step list-of-lists reference; the same reference on every baby batch of deviation-bounded multi-epoch runs",
-    "(a) A family of structurally different genomes (8 quick; all 16 hidden-node subsets x weight settings thorough) differing by excess and by disjoint genes: every way to pre-speciate an ordered choice of up to 2 members x every ordered batch of up to 3 further members (plus a repeated member) x 5 thresholds x both methods x 3 coefficient rows x 2 id layouts; the real speciate is followed organism by organism by a reference that recomputes the library's distance to each representative (any minimiser accepted on ties; new species iff none below threshold, with an id above every id issued before) and the final species lists are compared. (b) the same reference on the babies of every epoch of the E1 runs (species-wise driving) and on NewPopulation / NewPopulationRandom / ReadPopulation.",
+    "(a) A family of structurally different genomes (8 quick; 12 thorough: all 8 hidden-node subsets, half of them in two weight settings) differing by excess and by disjoint genes: every way to pre-speciate an ordered choice of up to 2 members x every ordered batch of up to 3 further members (plus a repeated member) x 5 thresholds x both methods x 3 coefficient rows x 2 id layouts; the real speciate is followed organism by organism by a reference that recomputes the library's distance to each representative (any minimiser accepted on ties; new species iff none below threshold, with an id above every id issued before) and the final species lists are compared. (b) the same reference on the babies of every epoch of the E1 runs (species-wise driving) and on NewPopulation / NewPopulationRandom / ReadPopulation.",
     "Family and batch sizes bounded; the distance function itself is trusted here (C07 checks it). Trusts overlay + accessors.",
     "DESIGN.md section 3 C08")
 
